@@ -14,22 +14,40 @@ open SwV.Model.C01 SwV.Model.C04 SwV.Model.C37
 def obs (v : Option (Nat × Content)) : Option (Nat × String) :=
   v.map fun p => (if p.2.data = "" then 0 else p.1, p.2.data)
 
-/-- Judge of one read of the backup, right after a backup run: `srcV` = what the source serves for
-    the id, `impl` = what the implementation's backup served; `srcRev` = the source's compaction
-    revision (0 = never compacted). -/
-def classify (srcRev : Nat) (srcV impl : Option (Nat × String)) : Option String :=
+/-- The verdict, from the property text alone: after a backup run the backup serves, for every id,
+    exactly what the source serves.  `srcV` = what the source serves for the id, `impl` = what the
+    implementation's backup served (`none` = not found / deleted / read error).  The class says WHICH
+    half of "exactly the source's live blobs with identical content" failed. -/
+def verdict (srcV impl : Option (Nat × String)) : Option String :=
   match srcV, impl with
   | none, none => none
-  | some a, some b =>
-    if a = b then none
-    else if srcRev = 0 then some "backup/wrong-content"
-    else some "IncrementalBackup/stale-content-after-source-compaction"
+  | some a, some b => if a = b then none else some "backup/wrong-content"
+  | some _, none => some "backup/misses-live-blob"          -- a live source blob is not served by the backup
+  | none, some _ => some "backup/serves-deleted-blob"       -- the backup serves a blob the source does not
+
+/-- the class of a RECORDED defect for a failed verdict (`srcRev` = the source's compaction revision,
+    0 = never compacted); `none` = no recorded defect produces this kind of failure -/
+def recordedClass (srcRev : Nat) (srcV impl : Option (Nat × String)) : Option String :=
+  match srcV, impl with
+  | some _, some _ => if srcRev = 0 then none else some "IncrementalBackup/stale-content-after-source-compaction"
   | some a, none =>
     if a.2 = "" then some "IncrementalBackup/empty-blob-indexed-as-delete"
-    else if srcRev = 0 then some "backup/misses-live-blob"
+    else if srcRev = 0 then none
     else some "IncrementalBackup/misses-update-after-source-compaction"
-  | none, some _ =>
-    if srcRev = 0 then some "backup/serves-deleted-blob"
-    else some "IncrementalBackup/serves-deleted-blob-after-source-compaction"
+  | none, some _ => if srcRev = 0 then none else some "IncrementalBackup/serves-deleted-blob-after-source-compaction"
+  | none, none => none
+
+/-- Judge of one read of the backup, right after a backup run.  Whether the read FAILS is decided by
+    `verdict` (source vs. backup, nothing else).  A failure carries the class of a recorded defect
+    only when that defect's mechanism — the key-ordered index after a source compaction defeating the
+    binary search, a delete compacted away at the source, an empty blob indexed as a deletion; all
+    three are part of the model, `modelV` = what the model's backup serves — produces exactly the
+    observed answer.  Any other failure keeps the verdict's own class (not recorded ⇒ VIOLATION):
+    e.g. a live blob missing from the backup after a run that the recorded mechanisms do not lose. -/
+def classify (srcRev : Nat) (srcV modelV impl : Option (Nat × String)) : Option String :=
+  match verdict srcV impl with
+  | none => none
+  | some cls =>
+    if impl = modelV then some ((recordedClass srcRev srcV impl).getD cls) else some cls
 
 end SwV.Spec.C37
